@@ -6,16 +6,36 @@ PROP = dict(
                  timeout=dict(quick=600, thorough=3000)),
         ],
         rule="case = (prepared state in {vaults+borrows liquidatable, V2 auctions running / expired, V1 auctions running / expired, "
-             "liquidity batch executed}, environment fault in {none, inactive / zero / 2^64-1 prices, drained module accounts, deleted "
-             "params, vault counter +1 / +random / -1, liquidity batch size 0}) with all 13 block hooks called directly, or (hook, state) "
-             "with a failure injected at store-gas consumption k of the hook run (quick: first / last / every 7th k of every "
-             "ApplyFuncIfNoError instance and of every unwrapped unit; thorough: every k); non-trivial = the hook changed state "
-             "(env case) or performed store accesses (crash case); distinct by (kind, state, fault / hook)",
+             "liquidity batch executed, V2 auctions running + collector lookup table with a surplus-auction mapping}, environment fault in "
+             "{none, inactive / zero / 2^64-1 prices, drained module accounts, liquidity batch size 0, liquidation batch size 2^63-1 / "
+             "2^63 / 2^64-1 set through the parameter-change proposal handler after vaults were created by messages past the stored sweep "
+             "offset, English auctions switched off in the app's liquidation whitelisting, and - FABRICATED, model validation only - vault "
+             "counter +1 / +random / -1 set directly through the keeper}) with all 13 block hooks called directly, or (hook, state) with a "
+             "failure injected at store-gas consumption k of the hook run (quick: first / last / every 7th k of every ApplyFuncIfNoError "
+             "instance and of every unwrapped unit; thorough: every k); non-trivial = the hook changed state (env case) or performed store "
+             "accesses (crash case); distinct by (kind, state, fault / hook)",
         modelled=["recover() and CacheContext themselves (Lib/Atomic.v), validated by the crash-point runs",
                   "error control flow of unwrapped code is not part of the table (conditionals are flattened)",
                   "reads, single store writes and bandoracle.FetchPrice outside wraps are taken as total (JStoreWrite / JBand)",
-                  "the V2 surplus / debt trigger (kf_C15_3) is decided on the table only: the harness state has no collector lookup entry"],
-        assumptions=["failures are injected as panics at store accesses (out-of-gas at access k) and as environment faults; "
+                  "the sweep window is modelled with Go's int64 wrap-around and the callers' int(uint64) conversions of the stored counter, "
+                  "offset and batch size (Model/Sweep.v: slice_bounds, sweep_window, sweep_slice_stored); the runner compares "
+                  "'model predicts the slice expression panics' (Sweep.slice_panics_stored) with 'the hook panicked' on every "
+                  "liquidation hook run, in both directions",
+                  "the V2 surplus / debt trigger is reached by the harness (state p2s) and judged through its own projection: the hook's "
+                  "liquidate_err event, the collector module balance, the net fees, the locked-vault and auction id counters and the "
+                  "mapping's active flag before / after the hook (Hooks.trigger_obs_diff), and through crash points inside it"],
+        assumptions=["reachability hypothesis of the sweep theorems: the length the vault sweeps pass as sliceLen (the stored LengthOfVault "
+                     "counter) does not exceed the capacity of GetVaults() - it follows from C01's invariant 'vault count = number of open "
+                     "vaults' (every wired path that adds or removes a vault moves the counter with it; the only double increment, "
+                     "auction/keeper/dutch.go RestartDutchAuctions, runs only from the first-generation auction BeginBlocker, which is not "
+                     "wired on this tree). FALSE ALARM CORRECTED: the former finding 'counter above the capacity makes totalVaults[start:end] "
+                     "panic' was reached only by setting the counter directly through the keeper (faults counter-high / counter-high-1 / "
+                     "counter-low): an unreachable state is outside the property's quantifier, so it is no longer a finding; those cases are "
+                     "declared 'fabricated' in the trace and only validate the model of the slice expression (theorem c15_slice_panics_iff: "
+                     "the expression panics only if counter > capacity), and the runner checks counter <= capacity on every other state",
+                     "every module's parameters are present in the parameter store (written by InitGenesis, also for modules added by an "
+                     "upgrade; no message deletes them) - GetParams in the unwrapped prologue of the sweeps is total under it",
+                     "failures are injected as panics at store accesses (out-of-gas at access k) and as environment faults; "
                      "out-of-memory, stack overflow and fatal errors are outside every model",
                      "hooks are called directly with the keepers of a fresh app (the V1 liquidation / auction hooks are not wired into "
                      "AppModule.BeginBlock on this tree; Example c15_wiring)"],
@@ -25,15 +45,17 @@ MANIFEST = dict(
     level_text="All-or-nothing of every ApplyFuncIfNoError unit proved generically (for every body, every behaviour of its calls, every crash "
                "point) over Lib/Atomic.v, together with 'the remaining units are still processed' and 'a hook halts only through a leaf outside "
                "every wrap'; the shape of all 13 block hooks and of the sweeps they reach is regenerated from the Go source on every check and the "
-               "table theorems (every unit the property names is wrapped per item; every unwrapped leaf is a read or registered with a "
-               "justification; no unrecognised shape; no unknown hook) are proved by computation over it. The sweep window "
-               "(GetSliceStartEndForLiquidations + reset + slice expression, int64 wrap included) is proved in range when counter <= capacity "
-               "and offset+batch does not overflow. Refuted with witnesses and listed as known findings: V2 borrow sweep not wrapped per item, "
-               "counter > capacity and offset+batch overflow make the unwrapped slice expression panic, missing liquidation params panic in the "
-               "unwrapped prologue, window size 1 (C17). Tied to /repo by the regenerated table and by crash-point enumeration on the real hooks.",
+               "table theorems (EVERY unit the property names is wrapped per item - no exempted class; every unwrapped leaf is a read or "
+               "registered with a justification; no unrecognised shape; no unknown hook) are proved by computation over it. The sweep window "
+               "(GetSliceStartEndForLiquidations + reset + int(uint64) conversions + slice expression, int64 wrap included) is proved in range "
+               "for every stored offset and every stored batch size when counter <= capacity (reachable states), and the slice expression is "
+               "proved to panic only if counter > capacity. Three defects reproduced on the real code and repaired: the V2 borrow sweep not "
+               "wrapped per item (C15-F1, fix C09-F3), offset+batchSize overflowing int for batch size 2^63-1 (C15-F2), the V2 surplus / debt "
+               "trigger not wrapped per (app, asset) (C15-F3); their witnesses are regression examples and harness cases. Tied to /repo by the "
+               "regenerated table, by crash-point enumeration on the real hooks and by the slice-panic prediction on every liquidation hook run.",
     design_ref="DESIGN.md section 4 C15",
-    level_note="c15_units_wrapped_partial and c15_unwrapped_total_partial are partial: classes kf_C15_1 (V2 borrow unit) and kf_C15_3 (V2 surplus/debt "
-               "trigger, table only) are excluded; reads / single store writes / ibc send outside wraps are modelled as total. No axioms.",
+    level_note="c15_unwrapped_total_partial is partial: reads / single store writes / ibc send outside wraps are modelled as total; the sweep "
+               "theorems carry the reachability hypothesis counter <= capacity (C01). No known-finding class remains. No axioms.",
     technique="Coq proof (generic atomicity over a hook language + finite table by vm_compute/forallb_forall + arithmetic lemmas) + translated "
               "hook-shape table + crash-point enumeration against the real hooks",
 )
